@@ -226,13 +226,16 @@ type LockCtx struct {
 	Callers map[*ssa.Function][]CallSite
 	memo    map[*ssa.Function]*LockInfo
 	busy    map[*ssa.Function]bool
+	hit     map[*ssa.Function]bool
+	prov    map[*ssa.Function]lockState
+	order   []*ssa.Function
 	// escapes: functions whose value is taken (used as a func value, method value or interface
 	// method) — their entry lock set cannot be derived from call sites.
 	addrTaken map[*ssa.Function]bool
 }
 
 func NewLockCtx(P *Program, scope []*ssa.Function) *LockCtx {
-	lc := &LockCtx{P: P, Callers: callersIndex(scope), memo: map[*ssa.Function]*LockInfo{}, busy: map[*ssa.Function]bool{}, addrTaken: map[*ssa.Function]bool{}}
+	lc := &LockCtx{P: P, Callers: callersIndex(scope), memo: map[*ssa.Function]*LockInfo{}, busy: map[*ssa.Function]bool{}, hit: map[*ssa.Function]bool{}, prov: map[*ssa.Function]lockState{}, addrTaken: map[*ssa.Function]bool{}}
 	for _, fn := range scope {
 		eachInstr(fn, func(in ssa.Instruction) {
 			for _, op := range in.Operands(nil) {
@@ -273,43 +276,73 @@ func (lc *LockCtx) openEntry(fn *ssa.Function) bool {
 	return len(lc.Callers[fn]) == 0
 }
 
-// Info returns the lock analysis of fn with its derived entry state.
+// Info returns the lock analysis of fn with its derived entry state. Cycles in the static call
+// graph are solved as a greatest fixpoint: a recursive call site contributes what it holds under
+// the current assumption about fn's own entry, iterated until stable.
 func (lc *LockCtx) Info(fn *ssa.Function) *LockInfo {
 	if li, ok := lc.memo[fn]; ok {
 		return li
 	}
 	if lc.busy[fn] {
-		return Locks(fn, nil) // recursion: assume nothing
+		lc.hit[fn] = true
+		if prov, ok := lc.prov[fn]; ok {
+			return Locks(fn, prov)
+		}
+		return nil // TOP: no information yet, the caller skips this site
 	}
 	lc.busy[fn] = true
-	defer func() { lc.busy[fn] = false }()
-	entry := lockState{}
-	if !lc.openEntry(fn) {
-		first := true
-		for _, cs := range lc.Callers[fn] {
-			if _, isGo := cs.Instr.(*ssa.Go); isGo {
-				entry = lockState{}
-				first = false
-				break
-			}
-			held := lc.Info(cs.Caller).At(cs.Instr)
-			if _, isDefer := cs.Instr.(*ssa.Defer); isDefer {
-				// deferred call runs at function exit: only locks released by other defers are
-				// still held; be conservative — nothing.
-				held = lockState{}
-			}
-			tr := translate(held, cs.Instr.Common(), fn)
-			if first {
-				entry = tr
-				first = false
-			} else {
-				entry = meet(entry, tr)
-			}
+	var entry lockState
+	for iter := 0; iter < 8; iter++ {
+		lc.hit[fn] = false
+		mark := len(lc.order)
+		entry = lc.entryOf(fn)
+		if !lc.hit[fn] {
+			break
 		}
+		if prov, ok := lc.prov[fn]; ok && eqState(prov, entry) {
+			break
+		}
+		lc.prov[fn] = entry
+		for _, g := range lc.order[mark:] {
+			delete(lc.memo, g)
+		}
+		lc.order = lc.order[:mark]
 	}
+	lc.busy[fn] = false
+	delete(lc.prov, fn)
 	li := Locks(fn, entry)
 	lc.memo[fn] = li
+	lc.order = append(lc.order, fn)
 	return li
+}
+
+func (lc *LockCtx) entryOf(fn *ssa.Function) lockState {
+	entry := lockState{}
+	if lc.openEntry(fn) {
+		return entry
+	}
+	first := true
+	for _, cs := range lc.Callers[fn] {
+		var tr lockState
+		if _, isGo := cs.Instr.(*ssa.Go); isGo {
+			tr = lockState{}
+		} else if _, isDefer := cs.Instr.(*ssa.Defer); isDefer {
+			// a deferred call runs at function exit; be conservative — nothing held.
+			tr = lockState{}
+		} else {
+			ci := lc.Info(cs.Caller)
+			if ci == nil {
+				continue // TOP
+			}
+			tr = translate(ci.At(cs.Instr), cs.Instr.Common(), fn)
+		}
+		if first {
+			entry, first = tr, false
+		} else {
+			entry = meet(entry, tr)
+		}
+	}
+	return entry
 }
 
 // translate rewrites caller paths into callee paths: a caller lock "x.y.mu" where argument i has
@@ -492,5 +525,50 @@ func usesOf(v ssa.Value) []ssa.Instruction {
 		}
 	}
 	walk(v)
+	return out
+}
+
+// ---------- re-entrancy ---------------------------------------------------------------------------
+
+// Reentry is a lock acquisition of a mutex that the same goroutine already holds (self-deadlock
+// for sync.Mutex / RWMutex when either side is exclusive).
+type Reentry struct {
+	At    ssa.Instruction
+	Mutex string
+	Chain []string // call chain from the root
+}
+
+// findReentry walks fn with `entry` held and reports acquisitions of an already held mutex,
+// following static callees (bodies available) up to depth.
+func findReentry(fn *ssa.Function, entry lockState, depth int, chain []string, seen map[string]bool) []Reentry {
+	key := fn.String() + entry.String()
+	if seen[key] || depth < 0 {
+		return nil
+	}
+	seen[key] = true
+	var out []Reentry
+	li := Locks(fn, entry)
+	chain = append(append([]string{}, chain...), shortName(fn))
+	for _, b := range fn.Blocks {
+		if _, ok := li.in[b]; !ok {
+			continue
+		}
+		st := li.in[b].clone()
+		for _, in := range b.Instrs {
+			if call, ok := in.(*ssa.Call); ok {
+				if p, k, ok := lockOp(&call.Call); ok {
+					if mode, held := st[p]; held && (k == "Lock" || (k == "RLock" && mode == 'W')) {
+						out = append(out, Reentry{At: in, Mutex: p, Chain: chain})
+					}
+				} else if g := staticCallee(&call.Call); g != nil && g.Blocks != nil && len(st) > 0 {
+					tr := translate(st, &call.Call, g)
+					if len(tr) > 0 {
+						out = append(out, findReentry(g, tr, depth-1, chain, seen)...)
+					}
+				}
+			}
+			applyLock(st, in)
+		}
+	}
 	return out
 }
